@@ -515,11 +515,12 @@ def run_proof(harness: Harness, tier="quick", seed=0, crosscheck=3):
             return "exc"
         for d in eng.dep_violations:
             h.fail_path("dependency-precondition", d)
-        # keep a model of this path for the CPython cross-check
+        # keep a model of this path for the CPython cross-check (preferably one with small denominators: A2)
         if len(path_models) < crosscheck:
             st, model, dt = symx.check(eng.hyps(), z3.BoolVal(False), 5000)
             if st == "sat":
-                path_models.append(h._model_values(model))
+                vals = h._model_values(model)
+                path_models.append(_nice_model(h, eng.hyps(), vals))
         return "ret"
 
     symx.install()
@@ -624,6 +625,31 @@ def run_proof(harness: Harness, tier="quick", seed=0, crosscheck=3):
     out["status"] = status
     out["wall_s"] = round(time.time() - t0, 3)
     return out
+
+
+def _nice_model(h, hyps, vals):
+    """try to replace a solver model by one with small denominators that still satisfies the path hypotheses
+    (checked by substitution); falls back to the original model"""
+    try:
+        if all(Fraction(v).denominator <= 10**6 for k, v in vals.items() if not k.startswith("__")):
+            return vals
+        for bound in (100, 10**4, 10**6):
+            cand = {k: (str(Fraction(v).limit_denominator(bound)) if not k.startswith("__") else v) for k, v in vals.items()}
+            subs = []
+            for name, (var, mode) in h.vars.items():
+                fr = Fraction(cand[name])
+                subs.append((var, z3.IntVal(int(fr)) if var.sort() == z3.IntSort() else z3.Q(fr.numerator, fr.denominator)))
+            ok = True
+            for c in hyps:
+                r = z3.simplify(z3.substitute(c, *subs))
+                if not z3.is_true(r):
+                    ok = False
+                    break
+            if ok:
+                return cand
+    except Exception:  # noqa: BLE001
+        pass
+    return vals
 
 
 def run_concrete(harness: Harness, values, tier="quick"):
